@@ -21,6 +21,7 @@ import json
 import multiprocessing
 import os
 import random
+import shutil
 
 from ..common import Check, MachineryError, SPEC
 from .. import tlc
@@ -361,12 +362,22 @@ def prepare_replays(cases):
 
 def run(tier):
     chk = Check(PID, tier)
+    try:
+        return _run(chk, tier)
+    finally:
+        shutil.rmtree(chk.scratch, ignore_errors=True)
+        for fn in os.listdir(os.path.join(SPEC, "gen")):
+            if fn.startswith("Repeating_trace_") and fn.endswith("_%d.cfg" % os.getpid()) or fn.endswith("_%d_v.cfg" % os.getpid()):
+                os.remove(os.path.join(SPEC, "gen", fn))
+
+
+def _run(chk, tier):
     thorough = tier == "thorough"
     nproc = max(1, min(8 if thorough else 6, (os.cpu_count() or 2) - 1))
     design_checks(chk, tier)
     behaviours = emit_behaviours(chk, tier)
     replays = prepare_replays(behaviours)
-    rand = random_cases(1500 if thorough else 250, chk.seed)
+    rand = random_cases(3000 if thorough else 250, chk.seed)
     slim = [{k: it[k] for k in ("cfg", "sched", "horizon")} for it in replays + rand]
     results = execute(chk, slim, nproc)
     for res in results:
@@ -382,7 +393,7 @@ def run(tier):
         if diffs:
             nmis += 1
             it["diffs"] = diffs
-            if len(to_trace) < 400:
+            if len(to_trace) < (1500 if thorough else 400):
                 to_trace.append((it, res))
         elif ed:
             unexplained.append("%s: %s" % (describe(it, res), ed))
@@ -445,4 +456,8 @@ def replay(path):
     judge(chk, [(it, res)], v, unexplained)
     for u in unexplained:
         print("note: %s" % u[:1500])
-    return chk.finish()
+    rc = chk.finish()
+    for fn in os.listdir(os.path.join(SPEC, "gen")):
+        if fn.startswith("Repeating_trace_one_%d" % os.getpid()):
+            os.remove(os.path.join(SPEC, "gen", fn))
+    return rc
